@@ -115,8 +115,16 @@ class PropertyRun:
         for q in funcs:
             self.verify_one(q, floor, known, timeout_ms)
         for q, c in self.reg.contracts.items():
-            if c.trusted and (self.pid in c.props or any(q in (f.get("callees") or []) for f in self.functions)):
-                self.trusted.add(f"trusted contract: {q} ({c.note or c.path})")
+            used = any(q in (f.get("callees") or []) for f in self.functions)
+            if c.trusted and (self.pid in c.props or used):
+                self.trusted.add(f"assumed contract: {q} -- {c.note or c.path}")
+            elif used and not c.trusted and self.pid not in c.props:
+                self.trusted.add(f"contract of {q} used at call sites (its body is verified under {','.join(c.props) or 'no property'})")
+        for f in self.functions:
+            if f.get("assumed_preconditions_of"):
+                self.trusted.add(f"{f['function']}: preconditions of {', '.join(f['assumed_preconditions_of'])} are assumed at their call sites")
+            if f.get("scope_note"):
+                self.trusted.add(f"{f['function']}: {f['scope_note']}")
         for b, proc in bfuts:
             self.run_bounded(b, finish_concrete(proc, b.get("timeout", 1800)))
         self.replay_known(known)
@@ -149,6 +157,9 @@ class PropertyRun:
             "function": q, "file": ct.path, "line": fr.lineno, "sha256": fr.sha256, "paths": fr.paths,
             "obligations": 0, "discharged": 0, "symex_s": round(fr.seconds, 2), "solver_s": 0.0, "backends": {},
             "inline": ct.inline,
+            "callees": sorted(fr.callees),
+            "scope_note": ct.note,
+            "assumed_preconditions_of": ct.ghost.get("assume_pre_of", []),
         }
         self.functions.append(entry)
         if fr.error:
